@@ -114,13 +114,19 @@ def _trace_summary(out, keys=("log", "q", "mpc", "closed", "cfin", "en", "seed",
 
 
 # ------------------------------------------------------------------------------------------------ design level
+SOFT_BUDGET_S = 210      # secondary design-level runs that would start later than this are skipped (and listed)
+
+
 def design_level(ctx, cm):
     quick = ctx.tier == "quick"
     out = {}
     jobs = []
+    t_start = time.time()
 
-    def mc(name, cfg, consts=None, workers=2, timeout=900, inv=None, props=None):
+    def mc(name, cfg, consts=None, workers=2, timeout=900, inv=None, props=None, secondary=False):
         def f():
+            if secondary and time.time() - t_start > SOFT_BUDGET_S:
+                return None
             text = open(os.path.join(vf.SPECS, cfg)).read()
             tmp = None
             if inv is not None or props is not None:
@@ -136,25 +142,30 @@ def design_level(ctx, cm):
         jobs.append((name, f))
 
     ops = "3" if quick else "4"
+    full = {"OpKinds": _set(["en", "dis", "rs", "enq", "blk", "unb", "sent"]), "MaxOps": "3"}
     # (a) the code's choices: what holds must hold
     mc("code_1contact", "MC_ContactManager.cfg", {"MaxOps": ops}, workers=2 if quick else 4)
     if not quick:
         mc("code_2contacts", "MC_ContactManager_2.cfg", workers=3)
-        mc("code_3contacts", "MC_ContactManager_3.cfg", workers=2)
-        mc("code_switches", "MC_ContactManager_sw.cfg", workers=2)
     # (b) what the code breaks must be shown broken (vacuity guard of the model: the deviations are in it)
     for inv in (["NoLookupLost"] if quick else sorted(BROKEN)):
-        mc("broken_" + inv, "MC_ContactManager.cfg", {"MaxOps": "3"}, workers=1, inv=[inv])
+        mc("broken_" + inv, "MC_ContactManager.cfg", full, workers=1, inv=[inv])
     if not quick:
-        mc("broken_ToldOnlyToRequest", "MC_ContactManager.cfg", {"MaxOps": "3"}, workers=1, inv=["TypeOK"], props=["ToldOnlyToRequest"])
+        mc("broken_ToldOnlyToRequest", "MC_ContactManager.cfg", full, workers=1, inv=["TypeOK"], props=["ToldOnlyToRequest"])
         # (c) the repaired choices satisfy every design invariant
-        mc("repaired", "MC_ContactManager.cfg", dict({k: "FALSE" for k in IMPL}, MaxOps="3"), workers=2,
+        mc("repaired", "MC_ContactManager.cfg", dict({k: "FALSE" for k in IMPL}, **full), workers=2,
            inv=HOLD + sorted(BROKEN) + ["HandlerIffEnabled"])
         # (d) liveness under fairness: fails for the code (F1), holds with the exit repaired
         mc("live_code", "MCL_ContactManager.cfg", workers=2)
-        mc("live_repaired", "MCL_ContactManager.cfg", {"ExitCancelsAny": "FALSE"}, workers=2)
+        mc("live_repaired", "MCL_ContactManager.cfg", {"ExitCancelsAny": "FALSE"}, workers=2, secondary=True)
+        # (e) more contacts / the switches alone (secondary: skipped when the machine is too loaded)
+        mc("code_switches", "MC_ContactManager_sw.cfg", workers=2, secondary=True)
+        mc("code_3contacts", "MC_ContactManager_3.cfg", workers=2, secondary=True)
     res = _parallel([f for _, f in jobs], 3 if quick else 4)
     for (name, _), r in zip(jobs, res):
+        if r is None:
+            out[name] = {"skipped": "soft time budget of the design level (%ds) was used up on a loaded machine" % SOFT_BUDGET_S}
+            continue
         if r.violated is None and re.search(r"Temporal propert\w+ .*violated", r.out):
             r.violated, r.error = "temporal", None      # lib/vf.py only knows the older wording
         ctx.states += r.distinct
@@ -189,12 +200,12 @@ def gen(ctx):
     quick = ctx.tier == "quick"
     # (name, contacts, opkinds, auto, preops, refused, maxlen, walks, keep)
     plans = [
-        ("auto2", 2, ["en", "dis", "rs", "enq", "blk", "unb", "sent"], True, 0, False, 12, 40, 50),
-        ("hist2", 2, ALLOPS, True, 3, True, 14, 40, 50),
-        ("manual2", 2, ["en", "dis", "rs", "enq", "sent", "blk"], False, 1, False, 12, 40, 50),
-        ("one", 1, ["enq", "blk", "unb", "sent", "en"], True, 0, False, 12, 40, 60),
-        ("switch", 2, ["en", "dis", "rs", "enq"], True, 2, False, 12, 30, 40),
-        ("three", 3, ["enq", "en", "rs", "sent"], True, 1, False, 12, 25, 30),
+        ("auto2", 2, ["en", "dis", "rs", "enq", "blk", "unb", "sent"], True, 0, False, 12, 30, 32),
+        ("hist2", 2, ALLOPS, True, 3, True, 14, 30, 32),
+        ("manual2", 2, ["en", "dis", "rs", "enq", "sent", "blk"], False, 1, False, 12, 30, 32),
+        ("one", 1, ["enq", "blk", "unb", "sent", "en"], True, 0, False, 12, 30, 36),
+        ("switch", 2, ["en", "dis", "rs", "enq"], True, 2, False, 12, 25, 26),
+        ("three", 3, ["enq", "en", "rs", "sent"], True, 1, False, 12, 20, 18),
     ]
     if quick:
         plans = [(n, c, o, a, p, r, ml, 8, 6) for (n, c, o, a, p, r, ml, w, k) in plans[:5]]
